@@ -13,6 +13,8 @@ structure St where
   db : State := {}
   tx : Option Tx := none
   sp : DBSpec.SpecSt := {}
+  /-- armed write fault for the next commit: index of the record whose write fails -/
+  fault : Option Nat := none
   deriving Inhabited
 
 def showRec (o : Option Rec) : String :=
@@ -147,8 +149,9 @@ def stepModel (st : St) (cmd : String) (impl : String) : St × Verdict :=
     | some t =>
       if t.closed then (st, v "err" "commit/closed")
       else
-        let (s', o) := if t.writable then commit s t.pending else (s, .ok ())
-        ({ st with db := s', tx := some { t with closed := true, pending := [] } }, v (unitOut o) s!"commit/{c}/{t.pending.length}")
+        let (s', o) := if t.writable then commitF s t.pending st.fault else (s, .ok ())
+        ({ st with db := s', tx := some { t with closed := true, pending := [] }, fault := none },
+          v (unitOut o) (s!"commit/{c}/{t.pending.length}" ++ (if st.fault.isSome then "/fault" else "")))
   | "rollback" =>
     match st.tx with
     | none => (st, v "err" "rollback/none")
@@ -166,6 +169,7 @@ def stepModel (st : St) (cmd : String) (impl : String) : St × Verdict :=
     ({ st with db := s' }, v m s!"merge/{(impl.splitOn " ").headD ""}")
   | "obs" => (rd (obsBuckets.flatMap fun b => getAllFetched s b (N 1)), v ("ok " ++ obs s (N 1)) "obs")
   | "capture" => (st, v "ok" "capture")
+  | "fault" => ({ st with fault := some (N 1) }, v "ok" "fault")
   | "concmerge" => (st, v "ok" "concmerge")
   | "image" =>
     -- the crash image is an input (its record listing comes from the implementation's own reader);
